@@ -6,7 +6,7 @@
 (* WordArith; failures are accumulated (line, index) so that one run       *)
 (* reports every event that does not satisfy its definition.               *)
 (***************************************************************************)
-EXTENDS Batch, Json, IOUtils
+EXTENDS Rns, Json, IOUtils
 
 Rec == ndJsonDeserialize(IOEnv.TRACE)
 
@@ -16,7 +16,7 @@ tvars == <<l, bad>>
 RECURSIVE FailIdx(_, _, _)
 FailIdx(facts, i, ln) ==
   IF i > Len(facts) THEN <<>>
-  ELSE (IF NttHolds(facts[i]) THEN <<>> ELSE << <<ln, i>> >>) \o FailIdx(facts, i+1, ln)
+  ELSE (IF RnsHolds(facts[i]) THEN <<>> ELSE << <<ln, i>> >>) \o FailIdx(facts, i+1, ln)
 
 RECURSIVE FailRows(_, _, _, _)
 FailRows(m, rows, i, ln) ==
